@@ -61,17 +61,16 @@ def transition(r, k, acc0, flag, path, rev=False):
         elif np.any((sc > 0) & (acc0 < 0)):
             r.v(sig + 'positive-score-on-missing-arc', 'step', case)
         elif U.rows(sc) != ref:
-            # Either the scores depend on earlier calls (a violation) or the scoring formula was changed on purpose
-            # (then the reference does not apply).  A fresh interpreter decides.
+            # The reference is the definition of the score (the pinned scoring, see oracle.ref_scores).  A fresh
+            # interpreter only tells the two ways of deviating apart: scores that depend on earlier calls, or a
+            # score computation that is different from the definition in every process.
             fresh = fresh_scores(k, U.rows(acc0), flag)
             if fresh is not None and fresh == U.rows(sc):
-                r.ctr['reference_formula_not_applicable'] += 1
-                ref = fresh
+                r.v(sig + 'scores-differ-from-the-reference-definition', 'step', case, None, None,
+                    'calculate_intersection_score (same in a fresh process) differs from the reference score of the pre-state')
             else:
                 r.v(sig + 'scores-differ-from-a-fresh-computation', 'step', case, None, None,
                     'calculate_intersection_score on a copy of the pre-state differs from the same call in a fresh process')
-                if fresh is not None:
-                    ref = fresh
     else:
         sc = None
     st, res, _ = brun(dsw.remove_nasty_arc, accessor=acc, latter_map=lm, has_insertion=flag[0], has_deletion=flag[1], lim=50000000)
